@@ -61,7 +61,7 @@ def _subscriber(events):
 def c09_events(e1: int, p1: int, g1: int, d: int, v: int, kind: int, code: int, sig: int, e2: int, p2: int) -> bool:
     """
     pre: e1 == rt.S['e1'] and (0 <= e2 <= 12 or e2 == 14)
-    pre: -1 <= p1 <= 2 and -1 <= p2 <= 2
+    pre: rt.S.get('pmin', -1) <= p1 <= rt.S.get('pmax', 2) and rt.S.get('pmin', -1) <= p2 <= rt.S.get('pmax', 2)
     pre: g1 in (0, 1, 3)
     pre: 0 <= d <= rt.S.get('dmax', 0) and 0 <= v <= 1
     pre: 0 <= kind <= 2 and 0 <= code <= 255 and 1 <= sig <= 64
@@ -293,24 +293,24 @@ def plan(tier):
             sh.append({'e1': e, 'K': 1, 'n0': 2, 'beh': 2, 'dmax': 30})
     if q:
         for e in (scen.EV_INCR, scen.EV_STOP, scen.EV_RELOAD):
-            sh.append({'e1': e, 'K': 2, 'n0': 1, 'beh': 0})
+            sh.append({'e1': e, 'K': 2, 'n0': 1, 'beh': 0, 'pmin': 0, 'pmax': 1})
     for e in (scen.EV_RELOAD, scen.EV_RELOAD_SEQ, scen.EV_INCR):
         sh.append({'e1': e, 'K': 1, 'n0': 2, 'beh': 0, 'var': 'send_hup', 'dmax': 6})
     for e in (scen.EV_INCR, scen.EV_DECR, scen.EV_SETNP, scen.EV_RELOAD, scen.EV_CHECK):
         sh.append({'e1': e, 'K': 1, 'n0': 2, 'beh': 0, 'var': 'max_age', 'dmax': 8})
     # a signal request (plain / recursive / children / one pid) to workers that survive it: no spawn, reap or kill event is due
-    sh.append({'e1': scen.EV_SIGNALCMD, 'K': 2 if q else 3, 'n0': 2, 'beh': 3})
+    sh.append(dict({'e1': scen.EV_SIGNALCMD, 'K': 2 if q else 3, 'n0': 2, 'beh': 3}, **({'pmin': 0, 'pmax': 1} if q else {})))
     sh.append({'e1': scen.EV_SIGNALCMD, 'K': 1, 'n0': 2, 'beh': 3, 'dmax': 8})
     for e in (scen.EV_EXIT, scen.EV_XKILL, scen.EV_INCR, scen.EV_STOP):
-        sh.append({'e1': e, 'K': 2, 'n0': 1, 'beh': 0, 'var': 'on_demand'})
+        sh.append(dict({'e1': e, 'K': 2, 'n0': 1, 'beh': 0, 'var': 'on_demand'}, **({'pmin': 0, 'pmax': 1} if q else {})))
         sh.append({'e1': e, 'K': 1, 'n0': 2, 'beh': 0, 'var': 'on_demand', 'dmax': 6})
     for e in (scen.EV_EXIT, scen.EV_XKILL):
         # the worker is dead (and past max_age) BEFORE the next request looks at the process set
-        sh.append({'e1': e, 'K': 2, 'n0': 2, 'beh': 0, 'var': 'max_age'})
-        sh.append({'e1': e, 'K': 2, 'n0': 2, 'beh': 0})
+        sh.append(dict({'e1': e, 'K': 2, 'n0': 2, 'beh': 0, 'var': 'max_age'}, **({'pmin': 0, 'pmax': 1} if q else {})))
+        sh.append(dict({'e1': e, 'K': 2, 'n0': 2, 'beh': 0}, **({'pmin': 0, 'pmax': 1} if q else {})))
     return [
         Cond('c09_events', shards=sh, budget=200 if q else 1500, twins=2,
-             bounds={'e1,e2': 'S: 13-event menu (C01 menu + stop, start) + signal request {plain, recursive, children, one pid}', 'p1,p2': 'R[-1,2]', 'g1': 'S{now, 1 turn, quiescence}',
+             bounds={'e1,e2': 'S: 13-event menu (C01 menu + stop, start) + signal request {plain, recursive, children, one pid}', 'p1,p2': 'R[-1,2] (quick K=2 shards: [0,1])', 'g1': 'S{now, 1 turn, quiescence}',
                      'd': 'R[0,dmax] kernel call at which a worker dies', 'kind,code,sig': 'R: every wait status a dead process can have '
                      '(exit code R[0,255]; signal R[1,64] with and without the core flag)', 'v': 'S{0,1}', 'var': 'S: configuration variant {default, send_hup, max_age 1 s, on_demand (started by a connection)}'}),
     ]
